@@ -205,7 +205,7 @@ _ADD = {
     "C09": "; plus: every watcher the store handed out is stopped after the stop; a reconnect notification placed at every switch point of a running stop call (no store operation after the return)",
     "C10": "; priorities up to 2^62; plus a late acquisition round of a leader that was preempted by a higher priority meanwhile (Create latencies 150/600 ms)",
     "C11": "; plus: flapping while the first reconnect verification is inside its critical section (second disconnect, change of owner, second reconnect placed by the explorer); a new term acquired inside the grace period of an earlier disconnect; a reconnect notification against a running stop",
-    "C12": "; after a health demotion the record is removed and the instance must lead again; a checker that ignores its context and answers after 150 ms (explorer's choice per tick), thresholds 1 and 2",
+    "C12": "; a term re-acquired inside the heartbeat interval in which the previous one ended (one check per interval); after a health demotion the record is removed and the instance must lead again; a checker that ignores its context and answers after 150 ms (explorer's choice per tick), thresholds 1 and 2",
     "C13": "; plus a leader that followed before (watch loop running) whose record is overwritten with arbitrary bytes: demoted once, Status and Stop return",
     "C14": "; plus: the consumer takes 0..n of up to 4 emitted entries (with or without ever calling Updates) and stops the watch: no forwarding goroutine is left",
     "C17": "; zero-backoff configurations (InitialBackoff 0, zero-value BackoffConfig)",
